@@ -315,6 +315,12 @@ static void do_fpbend(const J& g, W& w) {
     w.key("legs").begin_arr();
     for (size_t i = 0; i + 1 < sp.size(); i++) w.i((int64_t)llround((sp[i + 1] - sp[i]).length() * 1000));
     w.end_arr();
+    w.key("dirs").begin_arr();      // +1 left turn, -1 right turn
+    for (size_t i = 0; i < nc; i++) {
+        Vec2 u = sp[i + 1] - sp[i], v = sp[i + 2] - sp[i + 1];
+        w.i(u.cross(v) < 0 ? -1 : 1);
+    }
+    w.end_arr();
     w.key("tans").begin_arr();
     for (size_t i = 0; i < nc; i++) {
         Vec2 u = sp[i + 1] - sp[i], v = sp[i + 2] - sp[i + 1];
